@@ -41,6 +41,8 @@ type caseT struct {
 	ID      uint16 `json:"caller_id"`
 	// abandoned-retry sequences: the TCP side answers after TCPDelayMs, the caller's
 	// context lasts CtxMs (0 = 5 s)
+	// Size > 0: the UDP reply is exactly this many bytes long (Pad is ignored)
+	Size       int `json:"udp_reply_size,omitempty"`
 	TCPDelayMs int `json:"tcp_delay_ms,omitempty"`
 	CtxMs      int `json:"ctx_ms,omitempty"`
 }
@@ -131,6 +133,11 @@ func (s *server) serveUDP() {
 				o.udpReply = make([]byte, 12)
 				binary.BigEndian.PutUint16(o.udpReply, qi.WireID)
 				binary.BigEndian.PutUint16(o.udpReply[2:], c.Flags)
+			} else if c.Size > 0 {
+				o.udpReply = replyOfSize(qi, c.Flags, c.Size)
+				if len(o.udpReply) != c.Size {
+					rep.Inconclusive("harness: could not build a reply of exactly %d bytes (got %d)", c.Size, len(o.udpReply))
+				}
 			} else {
 				o.udpReply = dnsadv.Reply(qi.WireID, c.Flags, qi.QSect, fmt.Sprintf("udp/q%d", qi.Seq), c.Pad, byte(qi.Seq))
 			}
@@ -141,6 +148,36 @@ func (s *server) serveUDP() {
 		o.mu.Unlock()
 		s.pc.WriteTo(r, from)
 	}
+}
+
+// replyOfSize builds a well-formed reply of exactly size bytes (padding TXT).
+func replyOfSize(qi dnsadv.QueryInfo, flags uint16, size int) []byte {
+	tok := fmt.Sprintf("udp/q%d", qi.Seq)
+	pad := size - len(dnsadv.Reply(qi.WireID, flags, qi.QSect, tok, 1, 0)) + 1
+	for try := 0; try < 600 && pad > 0; try++ {
+		r := dnsadv.Reply(qi.WireID, flags, qi.QSect, tok, pad, byte(qi.Seq))
+		if len(r) == size {
+			return r
+		}
+		if len(r) > size {
+			pad--
+		} else {
+			pad++
+		}
+	}
+	// sizes a TXT chunk boundary makes unreachable: lengthen the token instead
+	for len(tok) < 200 {
+		tok += "x"
+		pad = size - len(dnsadv.Reply(qi.WireID, flags, qi.QSect, tok, 1, 0)) + 1
+		for try := 0; try < 8 && pad > 0; try++ {
+			r := dnsadv.Reply(qi.WireID, flags, qi.QSect, tok, pad, byte(qi.Seq))
+			if len(r) == size {
+				return r
+			}
+			pad += size - len(r)
+		}
+	}
+	return dnsadv.Reply(qi.WireID, flags, qi.QSect, tok, 0, 0)
 }
 
 func (s *server) serveTCP() {
@@ -399,6 +436,28 @@ func sharedBufferPhase(s *server, u upstream.Upstream) {
 	}
 }
 
+// sizeBoundaries: UDP replies whose exact length sits on and around every size
+// class a receive path might care about (512, 1232, 4 KiB, 8 KiB ... up to 65 000 bytes: "any size"), with TC clear
+// and TC set. "Replies without TC are returned as they
+// are and no TCP connection is opened for them."
+func sizeBoundaries(servers map[string]*server, ups map[string]upstream.Upstream, rng *rand.Rand) {
+	sizes := []int{100, 511, 512, 513, 1231, 1232, 1233, 2047, 2048, 2049, 4000, 4093, 4094, 4095, 4096, 4097, 8191, 8192, 16384, 32768, 65000}
+	for _, size := range sizes {
+		for _, tc := range []bool{false, true} {
+			for _, mode := range []string{"answer", "none"} {
+				f := uint16(0x8180)
+				if tc {
+					f |= 0x0200
+				}
+				c := &caseT{Seq: int(seqCtr.Add(1)), Flags: f, Size: size, TCPMode: mode, ID: uint16(rng.Intn(65536))}
+				caselog.Log(map[string]any{"size_boundary": c})
+				runCase(servers[mode], ups[mode], c)
+				rep.Count(fmt.Sprintf("size_boundary_cases:%d", size), 1)
+			}
+		}
+	}
+}
+
 // abandonedRetries: sequences on ONE upstream in which some TCP retries are
 // abandoned (the caller's context ends before the delayed TCP reply) and the late
 // reply arrives while the connection is idle again; the following truncated
@@ -595,6 +654,7 @@ func main() {
 	sharedBufferPhase(servers["answer"], ups["answer"])
 	optionVariants(servers["answer"], rng)
 	abandonedRetries(servers["answer"], rng)
+	sizeBoundaries(servers, ups, rng)
 	for _, u := range ups {
 		u.Close()
 	}
